@@ -32,6 +32,11 @@ pub struct CliOut {
     pub wall_ms: u64,
 }
 
+/// an exit status the emulator chose itself (see `CliOut::clean`)
+pub fn own_exit(code: i32) -> bool {
+    (0..=100).contains(&code)
+}
+
 impl CliOut {
     pub fn out_str(&self) -> String {
         String::from_utf8_lossy(&self.stdout).to_string()
@@ -42,9 +47,12 @@ impl CliOut {
     pub fn panicked(&self) -> bool {
         self.status == Status::Exit(101) || self.err_str().contains("panicked at")
     }
-    /// clean = normal exit status 0 and no panic text
+    /// clean = the process ended on its own account and without panic text: status 0, or a small status the program
+    /// chose itself (bin.rs ends with status 1 after "Error Reading file"; a tree that ends with such a status after
+    /// every diagnostic still "ends normally or with a diagnostic").  101 is what a Rust panic gives, 126 and above are
+    /// the conventions for a command that could not run or was ended by a signal.
     pub fn clean(&self) -> bool {
-        self.status == Status::Exit(0) && !self.err_str().contains("panicked at")
+        matches!(self.status, Status::Exit(c) if own_exit(c)) && !self.err_str().contains("panicked at")
     }
 }
 
